@@ -864,7 +864,9 @@ class RegionObjectsState:
     def resolve_futures(self, obj: Object, update_type: ObjectUpdateType):
         futures = self._object_futures.get((obj.LocalID, update_type), [])
         for fut in futures[:]:
-            fut.set_result(obj)
+            # done futures are only removed from the list by a callback on the next loop iteration
+            if not fut.done():
+                fut.set_result(obj)
 
     def cancel_futures(self, local_id: int):
         # Object went away, so need to kill any pending futures.
